@@ -31,6 +31,64 @@ pub enum Mode {
     Forge { fseed: u64, budget: u32 },
     /// crash images + planted garbage, scan and clean-up (C08)
     Orphans { pseed: u64 },
+    /// F-sched: concurrent program over a pre-state, many schedules (conc build)
+    Conc(ConcSpec),
+    /// real processes racing for the directory lock (C11, seq build)
+    Procs { pseed: u64 },
+}
+
+#[derive(Clone, Debug, PartialEq, Eq, Serialize, Deserialize)]
+pub enum COp {
+    Put { k: usize, c: usize, chunks: Vec<usize>, abort: bool },
+    Remove { k: usize },
+    RemoveRange { lo: crate::gen::B, hi: crate::gen::B },
+    Get { k: usize },
+    GetSize { k: usize },
+    GetRange { k: usize, start: u64, end: u64 },
+    /// get_reader, then (after further scheduling points) drain it
+    Reader { k: usize },
+    Iter,
+    Checkpoint,
+    DeleteOrphans,
+    Quarantine,
+    DeleteOrphan { c: usize },
+    /// C11: open the directory, hold it for `hold` small operations, drop it
+    OpenHold { hold: u32, keep_clone: bool, recover: bool },
+}
+
+impl COp {
+    pub fn short(&self) -> String {
+        match self {
+            COp::Put { k, c, abort, .. } => format!("put(k{k},c{c}{})", if *abort { ",abort" } else { "" }),
+            COp::Remove { k } => format!("rm(k{k})"),
+            COp::RemoveRange { lo, hi } => format!("rmrange({lo:?},{hi:?})"),
+            COp::Get { k } => format!("get(k{k})"),
+            COp::GetSize { k } => format!("size(k{k})"),
+            COp::GetRange { k, start, end } => format!("range(k{k},{start},{end})"),
+            COp::Reader { k } => format!("reader(k{k})"),
+            COp::Iter => "iter".into(),
+            COp::Checkpoint => "ckpt".into(),
+            COp::DeleteOrphans => "delete_orphans".into(),
+            COp::Quarantine => "quarantine_orphans".into(),
+            COp::DeleteOrphan { c } => format!("delete_orphan(c{c})"),
+            COp::OpenHold { hold, keep_clone, recover } => format!("open(hold={hold},clone={keep_clone},recover={recover})"),
+        }
+    }
+}
+
+#[derive(Clone, Debug, Serialize, Deserialize)]
+pub struct ConcSpec {
+    /// the workload's `ops` are the sequential pre-history; these are the concurrent tasks
+    pub tasks: Vec<Vec<COp>>,
+    /// contents planted as unreferenced blobs in the pre-state (orphans)
+    pub orphans: Vec<usize>,
+    /// main task opens one shared handle (false for C11 programs, whose tasks open themselves)
+    pub shared_handle: bool,
+    pub schedules: u32,
+    pub sseed: u64,
+    /// explicit schedule: one execution following these choices (u32::MAX = "continue current")
+    pub replay: Option<Vec<u32>>,
+    pub strategy: Option<String>,
 }
 
 #[derive(Clone, Debug, Serialize, Deserialize)]
@@ -95,6 +153,8 @@ impl Counters {
 #[derive(Clone, Debug, Default, Serialize, Deserialize)]
 pub struct Outcome {
     pub violation: Option<Failure>,
+    /// first violation seen of a property other than the one under check (monitors only)
+    pub foreign: Option<Failure>,
     pub harness_error: Option<String>,
     pub counters: Counters,
     pub probes: Probes,
